@@ -265,7 +265,7 @@ impl C18 {
 
 impl Monitor for C18 {
     fn total_cases(&self) -> u64 {
-        self.tier.pick(4_000, 400_000)
+        self.tier.pick(40_000, 1_500_000)
     }
     fn run_case(&mut self, k: u64, rng: &mut Rng, col: &mut Collector) {
         self.case(k, rng, col);
